@@ -94,13 +94,13 @@ def check(ctx, case, reqs, pend, shape_mode="inferred"):
             ctx.oracle_fail("ccube.%s raised %s: %s" % (func, type(e).__name__, str(e)[:100]), desc, cls="C03-ccube-raises")
             continue
         ishape = tuple(int(x) for x in cc.interacting_shape)
-        xdt = ctx.rng.choice(["int64", "to_array"])
+        xdt = "to_array" if case.get("narrow_inferred") else ctx.rng.choice(["int64", "to_array"])
         try:
             # to_array is defined for one- and two-axis indexes (C01); a three-axis dimension keeps its dense array,
             # cast to the narrow unsigned dtype to_array would have produced
             xdims = [d.astype(np.int64) if xdt == "int64" else
                      (ix.to_array() if d.ndim <= 2 else d.astype(ix.to_array().dtype)) for d, ix in zip(dense, idxs)]
-            xshape = ishape if (shape is not None or ctx.rng.random() < 0.5) else None
+            xshape = ishape if (shape is not None or (ctx.rng.random() < 0.5 and not case.get("narrow_inferred"))) else None
             if N == 0:
                 xshape = ishape       # nothing to infer a shape from
             if xshape is None and any(int(d.max(initial=0)) + 1 != s for d, s in zip(dense, ishape)):
@@ -276,6 +276,13 @@ def run(ctx):
         case = A.gen_case(ctx.rng, wide="u8", wide_extents=ext)
         ctx.hit("wide_extents_fixed")
         check(ctx, case, reqs, pend)
+    # the top category equal to the maximum of the narrow dtype the dense array is stored in (255 in uint8; thorough: 65535 in
+    # uint16), the array cube left to INFER its shape from such an array
+    for ext in (((256,), (256, 3), (2, 256)) if ctx.scale == 1 else ((256,), (256, 3), (2, 256), (65536,), (65536, 2))):
+        case = A.gen_case(ctx.rng, wide="u16" if max(ext) > 256 else "u8", wide_extents=ext)
+        case["narrow_inferred"] = True
+        ctx.hit("top_category_at_dtype_max")
+        check(ctx, case, reqs, pend, shape_mode="inferred")
     big_cells(ctx)
     tiny_weights(ctx)
     if ctx.oracle_only:
